@@ -496,7 +496,36 @@ class NumpyFacade:
     linalg = linalg
 
     def __getattr__(self, name):
-        return getattr(_np, name)
+        import types
+        obj = getattr(_np, name)
+        if isinstance(obj, (type, types.ModuleType)) or not callable(obj):
+            return obj
+
+        def guarded(*a, **k):
+            try:
+                r = obj(*a, **k)
+            except S.Unsupported:
+                raise
+            except Exception as e:
+                # real numpy on object arrays failed: is it a genuine error (same call fails on float arrays of the same shapes) or a gap of the facade?
+                def dummy(x):
+                    if isinstance(x, _np.ndarray) and x.dtype == object:
+                        return _np.zeros(x.shape)
+                    if isinstance(x, (SymReal, SymBool)):
+                        return 0.5
+                    if isinstance(x, (list, tuple)):
+                        return type(x)(dummy(y) for y in x)
+                    return x
+                involved = any(has_sym(x) or (isinstance(x, _np.ndarray) and x.dtype == object) for x in list(a) + list(k.values()))
+                if involved:
+                    try:
+                        obj(*[dummy(x) for x in a], **{kk: dummy(v) for kk, v in k.items()})
+                    except Exception:
+                        raise e
+                    raise S.Unsupported('np.%s is not modelled for symbolic arrays (%s: %s)' % (name, type(e).__name__, e))
+                raise
+            return _wrap(r) if isinstance(r, _np.ndarray) else r
+        return guarded
 
     # -- creation -------------------------------------------------------------------------------
     def zeros(self, shape, dtype=float, **kw):
